@@ -208,6 +208,35 @@ def run(tier, t0):
         if not sets or not all(any(g.dominates(s, w) for s in sets) for w in work):
             res.violation('C15.3', 'C15.3|%s' % path.split('::')[-1], g, g.line, 'set_print_context() does not dominate the first formatting of an address')
     pointer_width_context(res, prog, c, 'C15.3b')
+    # ---- C15.3c Address prints its whole value: both arms format `self.0` itself (no narrowing cast) as lower hex with
+    #      the `0x` prefix, zero-padded to 10 characters on 32-bit platforms and to 18 otherwise
+    res.rule('C15.3c', 0, floor=2, note='Address::fmt formats self.0 uncast; width 10 under Bits32, 18 otherwise')
+    af = c.fn('<process_state::Address as std::fmt::Display>::fmt')
+    if af is None:
+        res.error('C15.3c', 'Address::fmt not found')
+    else:
+        pw = prog.crate('minidump').adts.get('minidump::system_info::PointerWidth') or {}
+        b32 = [v['discr'] for v in pw.get('variants', []) if v['name'] == 'Bits32']
+        exa = PathExplorer(af, keep=lambda cnd: 'pointer_width' in show(cnd))
+        exa.run()
+        for b, t in af.calls():
+            if (af.callee(t) or '') != 'std::fmt::Formatter::write_fmt':
+                continue
+            res.rule('C15.3c', 1)
+            e = af.expand(af.call_tree(t))
+            args = e[3] if len(e) > 3 else ()
+            okv = is_call(args, 'Arguments::new') and len(args) == 4 and args[2][0] == 'bytes' and show(args[3]) == '(array (core::fmt::rt::Argument::new_lower_hex (tuple self.0).0))'
+            if not okv:
+                res.violation('C15.3c', 'C15.3c|value', af, t.get('line'), 'Address is not formatted as lower hex of `self.0` itself: %s' % show(args)[:200])
+                continue
+            tmpl = list(args[2][1])
+            for facts, env in exa.states.get(b, ()):
+                d = [v for cc, v in facts if show(cc) == '(discr pointer_width)']
+                is32 = bool(b32) and d and d[0] == b32[0]
+                want = 10 if is32 else 18
+                # format_args! template: flags word with the `#` and `0` flags, then the width
+                if len(tmpl) < 6 or tmpl[5] != want:
+                    res.violation('C15.3c', 'C15.3c|width|%s' % ('32' if is32 else '64'), af, t.get('line'), 'on a %s platform addresses are padded to %s characters (template %s), documented: %d' % ('32-bit' if is32 else '64-bit / unknown', tmpl[5] if len(tmpl) > 5 else '?', tmpl, want))
     # ---- C15.6 every JSON array mirrors the whole collection it reports: it is collect(map(<iteration over the
     #      collection>, closure)), optionally with enumerate(); no adapter that drops, truncates or reorders items
     res.rule('C15.6', 0, floor=10, note='JSON arrays are maps over whole collections: no take / skip / filter / step_by / rev / chain in the chains that build them')
